@@ -694,7 +694,7 @@ def replay(ctx, case):
         if L is not None:
             ref = bytes(range(1, L + 1))
         else:
-            ref = bytes(((i * 131 + (i >> 8) * 31 + 7) & 0xFF) for i in range(case["n"] + 2000))
+            ref = bytes(((i * 131 + (i >> 8) * 31 + 7) & 0xFF) for i in range(case["n"] + 3200))
         r, m = QuicStreamReceiver(stream_id=0, readable=True), RModel()
         for i, op in enumerate(ops):
             ctx.case(op, True)
